@@ -240,6 +240,7 @@ class Subprocess:
             if not hasattr(self, attr):  # don't clobber streams set above
                 setattr(self, attr, getattr(self.proc, attr))
         self._exit_callback: Callable[[int], None] | None = None
+        self._reaped = False
         self.returncode: int | None = None
 
     def set_exit_callback(self, callback: Callable[[int], None]) -> None:
@@ -261,6 +262,12 @@ class Subprocess:
         """
         self._exit_callback = callback
         Subprocess.initialize()
+        if self._reaped:
+            # waitpid() has already succeeded for this process, so its pid
+            # may have been reused by now; never wait on it again.
+            if self.returncode is not None:
+                self.io_loop.add_callback(self._run_exit_callback)
+            return
         Subprocess._waiting[self.pid] = self
         Subprocess._try_cleanup_process(self.pid)
 
@@ -341,6 +348,7 @@ class Subprocess:
             return
         assert ret_pid == pid
         subproc = cls._waiting.pop(pid)
+        subproc._reaped = True
         subproc.io_loop.add_callback(subproc._set_returncode, status)
 
     def _set_returncode(self, status: int) -> None:
@@ -356,7 +364,11 @@ class Subprocess:
         # object. If we don't inform it of the process's return code,
         # it will log a warning at destruction in python 3.6+.
         self.proc.returncode = self.returncode
+        self._run_exit_callback()
+
+    def _run_exit_callback(self) -> None:
         if self._exit_callback:
             callback = self._exit_callback
             self._exit_callback = None
+            assert self.returncode is not None
             callback(self.returncode)
